@@ -1365,6 +1365,18 @@ class Engine:
             res = self.fresh_int("r_" + short)
             self.event("call", str(name), recv, args, kwargs, node, res)
             return res
+        if short in getattr(self.contract, "bytes_functions", ()):
+            # unknown callee declared (by the contract) to return a bytes object: a fresh byte sequence
+            res = self.fresh_seq("r_" + short, "byte", "bytes")
+            ev = self.event("call", str(name), recv, args, kwargs, node, res)
+            may_raise = self.contract.callee_may_raise(name)
+            if may_raise and not self._assume_safety and (self.exc_stack or self.contract.has_xposts() or self.contract.track_raises):
+                if self.decide([None, None]) == 1:
+                    raise RaiseExc(may_raise if isinstance(may_raise, str) else "Exception", (), node)
+            if short not in getattr(self.contract, "frame_preserving", ()):
+                self.ghost["heapver"] = self.ghost.get("heapver", 0) + 1
+                self.attr_log = {}
+            return res
         res = self.fresh_opq("r_" + short)
         if short in getattr(self.contract, "immutable_results", ()):
             self.immutable_ids.add(res.t.get_id())
